@@ -798,4 +798,8 @@ BENIGN = {
         "    if i not in nodes_dict.keys():\n      nodes_dict[i] = [layer]\n"
         "    else:\n      nodes_dict[i].append(layer)\n",
         "    nodes_dict.setdefault(i, []).append(layer)\n")]),
+    # the benign twin of C10-seed7: memoised parse, every use gets a copy
+    "b42_cached_parse_copied": dict(props=["C10", "C09"], edits=os.path.join(
+        os.path.dirname(os.path.abspath(__file__)), "benign_patches",
+        "b42_cached_parse_copied.diff")),
 }
